@@ -93,6 +93,8 @@ def blob(rng, kind, n):
         r = rng.random()
         if kind == "trimmy":
             out.append(rng.choice(TRIMMY) if r < 0.9 else 0)
+        elif kind == "trimmy0":
+            out.append(rng.choice(TRIMMY))
         elif kind == "ascii":
             out.append(rng.choice(PRINTABLE) if r < 0.85 else 0x25)
         else:
@@ -197,10 +199,6 @@ def rand_op(rng, kind):
     if r < 0.99:
         return "exit %s" % t
     return "dtor %s" % t
-
-
-def fix_trimmy(op):
-    return op
 
 
 def rand_case(rng, cid):
